@@ -87,7 +87,9 @@ Fixpoint dedup (l : cfg) : cfg :=
    the order the Rust sort produces, and nothing depends on it. *)
 Definition enum_key (A : cfg) : cfg := dedup (sort_abs A).
 
-(* the cursor: ENUMERATION_CACHE, a map from the key of the assumption list to the next index *)
+(* the cursor: Ddnnf.enumeration_cursor (a field of the loaded model since the repair F21, shared
+   by its clones; before that the process-global ENUMERATION_CACHE), a map from the key of the
+   assumption list to the next index *)
 Notation cursor := (list (cfg * Z)).
 Fixpoint cfg_eqb (a b : cfg) : bool :=
   match a, b with
